@@ -54,7 +54,8 @@ const (
 	chk = "c12-labelpatch"
 
 	// finding signatures
-	sigOOR = "c12-batchid-out-of-range-panic"
+	sigOOR    = "c12-batchid-out-of-range-panic"
+	sigHidden = "c12-filter-hidden-labelled-overfill"
 
 	ns     = "ns"
 	wlName = "demo"
@@ -179,7 +180,7 @@ type Case struct {
 	Actions      []Action             `json:"actions"`
 	// Steer: repair the input class of the known finding sigOOR before every pass (set by the
 	// generator while the finding is listed in known.go; false in the finding's replay file).
-	Steer bool `json:"steer,omitempty"`
+	Steer []string `json:"steer,omitempty"`
 }
 
 func updateRevision(kind string, rev int) string {
@@ -383,7 +384,10 @@ func gen(t *rapid.T) Case {
 		c.Replicas = rapid.IntRange(1, 40).Draw(t, "replicas")
 	}
 	c.Batches = gPlan(t, "plan", c.Replicas)
-	c.RolloutID = rapid.SampledFrom(append([]string{""}, append(rolloutIDs, rolloutIDs...)...)).Draw(t, "rollout-id")
+	c.RolloutID = rapid.SampledFrom(rolloutIDs).Draw(t, "rollout-id")
+	if rapid.IntRange(0, 24).Draw(t, "rollout-id-empty") == 24 {
+		c.RolloutID = "" // only a hand-made BatchRelease has none; the pass must then be a no-op
+	}
 	c.CurrentBatch = rapid.IntRange(0, len(c.Batches)-1).Draw(t, "current-batch")
 	c.Rev = rapid.IntRange(0, 2).Draw(t, "rev")
 	c.Rollback = c.Kind != kDeployment && rapid.IntRange(0, 9).Draw(t, "rollback") < 4
@@ -391,9 +395,9 @@ func gen(t *rapid.T) Case {
 	var np int
 	switch rapid.IntRange(0, 3).Draw(t, "npods-kind") {
 	case 0:
-		np = rapid.IntRange(0, 6).Draw(t, "npods")
+		np = rapid.IntRange(1, 6).Draw(t, "npods")
 	case 1:
-		np = rapid.IntRange(0, 40).Draw(t, "npods")
+		np = 40 - rapid.IntRange(0, 40).Draw(t, "npods")
 	default: // around the replica count, as a healthy workload has
 		np = c.Replicas + rapid.IntRange(-2, 3).Draw(t, "npods-delta")
 		if np < 0 {
@@ -413,7 +417,11 @@ func gen(t *rapid.T) Case {
 		c.Actions = append(c.Actions, gAction(t, fmt.Sprintf("act%d", i), &c, np+i))
 	}
 	c.Actions = append(c.Actions, Action{Op: "patch", N: rapid.IntRange(-1, 1).Draw(t, "final-target")})
-	c.Steer = excl(sigOOR)
+	for _, sig := range []string{sigOOR, sigHidden} {
+		if excl(sig) {
+			c.Steer = append(c.Steer, sig)
+		}
+	}
 	return c
 }
 
@@ -982,6 +990,8 @@ func (w *world) neutralise() {
 	}
 }
 
+var trace = os.Getenv("VERIF_TRACE") != ""
+
 func (w *world) releaseBatches() []v1beta1.ReleaseBatch {
 	var out []v1beta1.ReleaseBatch
 	for _, b := range w.batches {
@@ -1011,9 +1021,63 @@ func (w *world) hazard(before map[string]snap, pi *passInfo) []string {
 	return out
 }
 
+// hiddenLabelled: live update-revision pods of the workload that carry the current rollout-id but
+// are withheld from the patcher by the caller-installed filter (the input class of sigHidden).
+func (w *world) hiddenLabelled(before map[string]snap, pi *passInfo) []string {
+	var out []string
+	for name, s := range before {
+		if !s.term && pi.owned[name] && !pi.visible[name] && s.labels[lblRID] == w.rolloutID && w.consistent(s) {
+			out = append(out, fmt.Sprintf("%s(batch-id %q)", name, s.labels[lblBID]))
+		}
+	}
+	sort.Strings(out)
+	return out
+}
+
+// neutraliseHidden repairs the input class of sigHidden: the real filter is run once on a fresh
+// context; labelled pods it withholds lose their rollout-id label (which pods the ordered filter
+// withholds does not depend on that label, so the repair is stable).
+func (w *world) neutraliseHidden() {
+	if w.rolloutID == "" || !w.rollback || w.kind == kDeployment {
+		return
+	}
+	pi := w.buildContext()
+	if pi.ctx.FilterFunc == nil || len(pi.ctx.Pods) == 0 {
+		return
+	}
+	pi.ctx.FilterFunc(pi.ctx.Pods, pi.ctx)
+	hit := false
+	for _, p := range w.allPods() {
+		s := snap{labels: p.Labels, term: !p.DeletionTimestamp.IsZero(), owner: metav1.GetControllerOf(&p)}
+		if s.term || !pi.owned[p.Name] || pi.visible[p.Name] || s.labels[lblRID] != w.rolloutID || !w.consistent(s) {
+			continue
+		}
+		pod := p
+		delete(pod.Labels, lblRID)
+		w.harnessErr(w.raw.Update(context.TODO(), &pod), "neutraliseHidden")
+		hit = true
+	}
+	if hit {
+		vlib.Excluded(chk, sigHidden)
+		w.sum.neutralised++
+	}
+}
+
+func (w *world) steers(sig string) bool {
+	for _, s := range w.c.Steer {
+		if s == sig {
+			return true
+		}
+	}
+	return false
+}
+
 func (w *world) pass(targetDelta int) {
-	if w.c.Steer {
+	if w.steers(sigOOR) {
 		w.neutralise()
+	}
+	if w.steers(sigHidden) {
+		w.neutraliseHidden()
 	}
 	w.sum.passes++
 	nb := len(w.batches)
@@ -1052,6 +1116,20 @@ func (w *world) pass(targetDelta int) {
 	}
 	writes1 := append([]string(nil), w.cli.writes...)
 	after := w.snapshot()
+	if trace {
+		fmt.Printf("TRACE pass %d: kind=%s replicas=%d batches=%v cur=%d id=%q rev=%s inc=%v\n  ctx=%s\n", w.sum.passes, w.kind, w.replicas, w.batches, w.cur, w.rolloutID, updateRevision(w.kind, w.rev), inc, pi.ctx.Log())
+		var ns []string
+		for n := range before {
+			ns = append(ns, n)
+		}
+		sort.Strings(ns)
+		for _, n := range ns {
+			b := before[n]
+			fmt.Printf("  %-10s owned=%-5v visible=%-5v term=%-5v consistent=%-5v rid=%q bid=%q noneed=%q -> rid=%q bid=%q\n", n, pi.owned[n], pi.visible[n], b.term, w.consistent(b),
+				b.labels[lblRID], b.labels[lblBID], b.labels[lblNoNeed], after[n].labels[lblRID], after[n].labels[lblBID])
+		}
+		fmt.Printf("  writes=%v\n", writes1)
+	}
 
 	if w.rolloutID == "" {
 		if len(writes1) > 0 {
@@ -1160,6 +1238,10 @@ func (w *world) pass(targetDelta int) {
 			w.sum.exceededBefore++
 		}
 		if ca[v] > allowed && ca[v] > cb[v] {
+			if hl := w.hiddenLabelled(before, pi); len(hl) > 0 {
+				w.fail(sigHidden, "batch-id %q: %d live update-revision pods carry (%q,%q) after the pass, %d before; the plan %v with %d replicas adds %d pods in that batch (current batch index %d). Pods already labelled for this release but withheld from the patcher by the %s filter (not counted against the budget): %v",
+					v, ca[v], w.rolloutID, v, cb[v], w.batches, w.replicas, allowed, w.cur, w.kind, hl)
+			}
 			w.fail("c12-batch-overfilled", "batch-id %q: %d live update-revision pods carry (%q,%q) after the pass, %d before; the plan %v with %d replicas adds %d pods in that batch (current batch index %d)",
 				v, ca[v], w.rolloutID, v, cb[v], w.batches, w.replicas, allowed, w.cur)
 		}
@@ -1170,11 +1252,13 @@ func (w *world) pass(targetDelta int) {
 		unl := 0
 		have := make([]int, nb)
 		for name, s := range before {
-			if s.term || !pi.visible[name] || !pi.owned[name] || !w.consistent(s) {
+			if s.term || !pi.owned[name] || !w.consistent(s) {
 				continue
 			}
 			if rid, ok := s.labels[lblRID]; !ok || rid != w.rolloutID {
-				unl++
+				if pi.visible[name] {
+					unl++
+				}
 				continue
 			}
 			if v, err := strconv.Atoi(s.labels[lblBID]); err == nil && v >= 1 && v <= nb {
